@@ -28,9 +28,11 @@ BAR == 124
 
 IsAlnum(c) == (c >= 48 /\ c <= 57) \/ (c >= 65 /\ c <= 90) \/ (c >= 97 /\ c <= 122)
 Nice(c) == IsAlnum(c) \/ c \in {45, 95, 46, 44, 47}       \* - _ . , /
-Blank(c) == c \in {SP, TAB, NL}
+Blank(c) == c \in {SP, TAB}
+\* (an unquoted newline is not a blank to sh: it ends the command -- what follows is another command, and a line that
+\* begins with `|` is a syntax error; the tokeniser below refuses it, like the other operators it does not model)
 \* characters the shell interprets when they appear unquoted
-Meta(c) == c \in {BAR, 38, 59, 60, 62, 40, 41, 36, 96, 42, 63, 91, 35, 126, 33, 123, 125}
+Meta(c) == c \in {BAR, 38, 59, 60, 62, 40, 41, 36, 96, 42, 63, 91, 35, 126, 33, 123, 125, NL}
             \* | & ; < > ( ) $ ` * ? [ # ~ ! { }
 
 \* ---------------------------------------------------------------- the renderer (transcribed)
